@@ -45,7 +45,7 @@ func (vc *VC) call(st *State, fr *Frame, x *ssa.Call, k func(*State, *Frame)) {
 	if callee := c.StaticCallee(); callee != nil {
 		if fr.top && st.ctx != nil && st.ctx.blk != nil {
 			for i, ac := range st.ctx.blk.AtClosure {
-				if ac.Callee == "" || ac.Callee != callee.Name() {
+				if ac.Callee == "" || ac.Callee != callee.Name() || strings.HasPrefix(ac.Callee, "mapupdate:") {
 					continue
 				}
 				env := vc.localsEnv(st, fr)
